@@ -431,6 +431,28 @@ func (ex *Exec) havocWritesMode(st *State, ws map[string]bool, listed []string, 
 		}
 		old := ex.heapTerm(st, h)
 		nw := ex.havocHeap(st, h)
+		if strings.HasPrefix(h, "A_") {
+			// anchors: name the new contents of every slice value in scope, so that the frame
+			// axioms (triggered on (select H' x)) fire for them without waiting for a load
+			es := strings.TrimPrefix(h, "A_")
+			seen := map[string]bool{}
+			for v, sv := range st.vals {
+				if sv.Loc != nil || sv.Tup != nil || sv.T == "" {
+					continue
+				}
+				sl, ok := v.Type().Underlying().(*types.Slice)
+				if !ok || ex.w.sortOf(sl.Elem()) != es {
+					continue
+				}
+				a := sArr(sv.T)
+				if seen[a] {
+					continue
+				}
+				seen[a] = true
+				c := ex.fresh("anchor", "(Array Int "+es+")")
+				st.assume(eq(c, sel(nw, a)))
+			}
+		}
 		for _, pin := range ex.pins {
 			if pin.heap == h {
 				// shortcut for read-only package-level locations: equal to the entry heap (no frame chain needed)
@@ -790,6 +812,7 @@ func (ex *Exec) execInstrs(fr *Frame, b *ssa.BasicBlock, i int, st *State) {
 		case *ssa.Call:
 			ex.doCall(fr, st, x, x.Common(), func(st2 *State, res SVal) {
 				st2.vals[x] = res
+				ex.ghostAsserts(fr, st2, x)
 				ex.execInstrs(fr, b, i+1, st2)
 			})
 			return
@@ -1350,3 +1373,62 @@ func (ex *Exec) doMakeClosure(fr *Frame, st *State, x *ssa.MakeClosure) {
 type closureBinds struct{ *ssa.MakeClosure }
 
 func (closureBinds) String() string { return "closure-binds" }
+
+// callSiteName: "<callee short name>#<k>", k counting the call sites of that callee in source order.
+func (fr *Frame) callSiteName(call *ssa.Call) string {
+	short := func(c *ssa.CallCommon) string {
+		if c.IsInvoke() {
+			return c.Method.Name()
+		}
+		switch v := c.Value.(type) {
+		case *ssa.Function:
+			return v.Name()
+		case *ssa.Builtin:
+			return v.Name()
+		}
+		return "func"
+	}
+	want := short(call.Common())
+	k := 0
+	for _, b := range fr.fn.Blocks {
+		for _, in := range b.Instrs {
+			if c, ok := in.(*ssa.Call); ok && short(c.Common()) == want {
+				k++
+				if c == call {
+					return fmt.Sprintf("%s#%d", want, k)
+				}
+			}
+		}
+	}
+	return want + "#?"
+}
+
+// ghostAsserts: `after <site> assert e` clauses: proved at that point, then assumed (proof stepping stones).
+func (ex *Exec) ghostAsserts(fr *Frame, st *State, call *ssa.Call) {
+	if fr.block == nil {
+		return
+	}
+	var site string
+	for _, c := range fr.block.Clauses {
+		if c.Kind != "after" {
+			continue
+		}
+		if site == "" {
+			site = fr.callSiteName(call)
+		}
+		if c.Names[0] != site {
+			continue
+		}
+		ctx := &EvalCtx{ex: ex, st: st, old: fr.pre, env: ex.loopEnv(fr, nil, st)}
+		t, err := ctx.evalBool(c.E)
+		if err != nil {
+			ex.errorf("%s: after %s assert: %v", fnName(fr.fn), site, err)
+			continue
+		}
+		label := c.Label
+		if label == "" {
+			label = site
+		}
+		ex.check(fr, st, "assert", label, call.Pos(), t)
+	}
+}
